@@ -719,21 +719,22 @@ def search(rng, broken):
     return None
 
 
-LEVEL_TEXT = ('Proof: for the slice arithmetic and legality guards regenerated from odl/util/numerics.py on every run, '
-              'Coq proves for EVERY input length, output length (growing, shrinking, equal), admissible offset, pad mode '
-              'and all contents that the 1-d resize_array (a) computes exactly the named rule as an index formula '
-              '(constant, periodic wrap, symmetric reflection without edge repeat, order0, order1), (b) rejects padding '
-              'lengths outside the documented limits, (c) has an adjoint direction that is the exact transpose '
-              '(<Rx,y> = <x,R^T y>), (d) crop after extend is the identity; and for the range built by ResizingOperator: '
-              'unchanged cell sides, the interval enlarged by exactly the added cells, offset recovered from the grids. '
-              'Offsets outside 0..|delta| are proved to be rejected and a restriction with explicit offset is proved to have the '
-              'sub-interval as range (both were findings, repaired in /repo; their decision code is regenerated too). N-d (per-axis loop with working slices, mixed grow/shrink) and '
-              'the operator wrapper are tied by exact in-Coq correspondence, and the N-d array is also checked to equal the '
-              'composition of the proved 1-d maps along the axes; the N-d lift itself is validated, not proved.')
+LEVEL_TEXT = ('Proof: for the slice arithmetic, legality guards, offset validation and range construction formulas '
+              'regenerated from odl/util/numerics.py and odl/discr/discr_ops.py on every run, Coq proves for EVERY input '
+              'length, output length (growing, shrinking, equal), offset, pad mode and all contents that the 1-d '
+              'resize_array (a) computes exactly the named rule as an index formula (constant, periodic wrap, symmetric '
+              'reflection without edge repeat, order0, order1), (b) rejects paddings outside the documented limits and '
+              'offsets outside 0..|delta|, (c) has an adjoint direction that is the exact transpose, (d) crop after '
+              'extend is the identity, (e) is linear for pad_const = 0; that the model executed at Q is the restriction '
+              'of the one proved at R; for N-d arrays of any number of axes (growing in some, shrinking in others) that '
+              'the composition of the 1-d maps in the code axis order satisfies (c) and (d) and that the axis order is '
+              'immaterial; and for the range built by ResizingOperator: unchanged cell sides, interval enlarged by exactly '
+              'the added cells (restriction: the sub-interval at the offset), offset recovered from the grids. The in-place '
+              'N-d statement sequence (working slices, corners) and the operator wrapper are tied by exact in-Coq '
+              'correspondence, which also checks in-place = separable on every case; that equality is validated, not proved.')
 LEVEL_NOTE = ('Trusted: the translator (fail-closed, small grammar), the hand-written Python-slice semantics / NumPy 1-d '
-              'broadcasting and statement sequences of _assign_intersection/_apply_padding/resize_array (validated by the '
-              'correspondence on all modes x directions x lengths 0..5 x 0..7 x all offsets incl. illegal ones), exact '
-              'arithmetic (rounding out of scope), dtype casting rules (np.can_cast is an input). Weighted adjoint identity '
-              'holds only for uniformly weighted spaces with equal constants: two recorded findings. Axioms: classical '
-              'reals as printed.')
+              'broadcasting and statement sequences of _apply_padding/resize_array (validated by the correspondence on all '
+              'modes x directions x lengths 0..5 x 0..7 x all offsets incl. illegal ones), exact arithmetic (rounding out '
+              'of scope), dtype casting rules (np.can_cast is an input). Weighted adjoint identity holds only for uniformly '
+              'weighted spaces with equal constants: two recorded open findings. Axioms: classical reals as printed.')
 TECHNIQUE = 'Coq proof by list induction over source-regenerated slice arithmetic + in-Coq differential correspondence'
